@@ -11,7 +11,7 @@ FORMULAS = [
     "y ~ x", "y ~ 1", "y ~ 0 + x", "y ~ x + f", "y ~ f:g + x", "y ~ bs(x, df=4) + f", "y ~ poly(x, 2):f", "y ~ x + (1|g)",
     "y ~ x + (x|g)", "y ~ (0 + f|g)", "y ~ (f|g) + (1|h)", "y ~ (x|g) + (z|h)", "y ~ (1|g:h)", "y ~ (x + z|g)", "y ~ x + (bs(x, df=4)|g)",
     "y ~ (poly(x, 2)|g) + (1|h)", "y ~ (f:x|g)", "f ~ x", "s['yes'] ~ x + (1|g)", "prop(succ, trials) ~ x", "y ~ scale(x) + (scale(x)|g)",
-    "y ~ x + (x|g) + (x|h)", "y ~ (1|h) + (x|g)", "y ~ 0 + I((x + 1) * 2) + I(x + 1 * 2)", "y ~ x + `x`",
+    "y ~ x + (x|g) + (x|h)", "y ~ (1|h) + (x|g)", "y ~ 0 + I((x + 1) * 2) + I(x + 1 * 2)", "y ~ x + `x`", "y ~ x + offset(z) + f", "y ~ offset(2.5) + (1|g)",
 ]
 
 
